@@ -7,7 +7,7 @@ final signed group to equal the signed group of the request (TraceCircuit.tla, k
 """
 from .. import core, impl, models, sweep
 
-CLAUSES = {"state", "raised", "unknown-gate"}
+CLAUSES = {"state", "raised", "unknown-gate", "mutated-after-return"}
 
 
 def build_inputs(ck, tier, rng):
@@ -33,7 +33,9 @@ def run(tier):
     L = impl.lib()
     inputs = build_inputs(ck, tier, ck.rng)
     jobs = sweep.expand_jobs(inputs, ["prep"], ck.rng)
-    traces, verdicts = sweep.run_jobs(ck, L, jobs, "prep")
+    sweeps = sweep.sign_sweep_jobs(inputs, "prep", ck.rng)
+    traces, verdicts = sweep.run_jobs(ck, L, jobs, "prep", sweeps=sweeps)
+    ck.cov["sign_sweeps_in_one_process"] = len(sweeps)
     sweep.report(ck, "C01", traces, verdicts, CLAUSES)
     neg = sum(1 for t in traces if any(c >= impl.W2 for c in t["target"]))
     ck.cov["traces_with_negative_signs"] = neg
